@@ -23,6 +23,14 @@ def write_inputs(path, inputs):
 def native_replay(rep, scratch, workdir):
     """rep: replay record (dict).  returns dict(reproduced, exit, output, cmd)"""
     clean = os.path.join(scratch, "clean")
+    if rep.get("watch"):
+        # ghost-observer obligations: the native build needs the same VWATCH() calls the verifier saw
+        import shutil
+        wsrc = os.path.join(workdir, "wsrc")
+        if not os.path.exists(wsrc):
+            shutil.copytree(clean, wsrc)
+            S.inject_watch(wsrc, rep["watch"])
+        clean = wsrc
     harness = os.path.join(VERIF, "harness", rep["harness"])
     defines = dict(rep.get("defines", {}))
     defines.pop("VCBMC", None)
@@ -63,6 +71,6 @@ def make_record(prop, res, ob, failure):
             "failed": {k: failure.get(k) for k in ("property", "description", "class", "location", "status")},
             "all_failed": [f.get("description") for f in res["failures"]][:20],
             "harness": ob["harness"], "entry": ob.get("entry", "harness"), "char": ob.get("char", "A"),
-            "route": ob["route"], "defines": res.get("defines", {}), "inputs": failure.get("inputs", {}),
+            "route": ob["route"], "defines": res.get("defines", {}), "inputs": failure.get("inputs", {}), "watch": list(ob.get("watch", [])),
             "verifier": {"cmd": res.get("checker_cmd"), "trace_tail": failure.get("trace_tail", []),
                          "messages": res.get("messages_tail", [])}}
